@@ -51,7 +51,6 @@ import (
 	"path/filepath"
 	"runtime"
 	"runtime/debug"
-	"runtime/pprof"
 	"sort"
 	"strings"
 	"sync"
@@ -129,8 +128,6 @@ var (
 	crashKinds = []string{oCrashB, oCrashA}
 	allEvents  = []string{evSpokeVanish1, evSpokeVanish2, evSpokeCompact, evHubVanish1, evHubVanish2, evHubCompact1, evHubCompact2, evHubSweep}
 )
-
-func isCrash(o string) bool { return o == oCrashA || o == oCrashB }
 
 // pert is one perturbation, addressed semantically so that a history stays meaningful when other
 // perturbations are dropped by the minimiser.
@@ -918,6 +915,38 @@ func children(r *result, b bounds) []history {
 	return out
 }
 
+// classSig is the class signature of a minimal history: its perturbation list without positions (run
+// numbers, "before <call>" placements) and with the files renamed in order of first use — the same defect
+// reached through the first or the second transfer of a pass, or with the storage event placed in a gap
+// or right before the next call, is one class.
+func classSig(h history) string {
+	ren := map[string]string{}
+	name := func(s string) string {
+		for _, f := range []string{"f1", "f2"} {
+			if strings.Contains(s, "("+f+")") {
+				if _, ok := ren[f]; !ok {
+					ren[f] = fmt.Sprintf("file%c", 'A'+len(ren))
+				}
+				s = strings.ReplaceAll(s, "("+f+")", "("+ren[f]+")")
+			}
+		}
+		return s
+	}
+	var parts []string
+	for _, p := range h.Perts {
+		if p.Kind == "event" {
+			parts = append(parts, name(p.What))
+		} else {
+			parts = append(parts, name(p.At)+"="+p.What)
+		}
+	}
+	out := strings.Join(parts, ";")
+	if h.MaxAttempts != 0 {
+		out = fmt.Sprintf("max_attempts=%d;%s", h.MaxAttempts, out)
+	}
+	return out
+}
+
 type failing struct {
 	h history
 	v rawViol
@@ -933,19 +962,6 @@ func main() {
 	signal.Notify(sig, syscall.SIGINT, syscall.SIGTERM)
 	go func() { <-sig; cleanup(); os.Exit(2) }()
 
-	if pf := os.Getenv("VERIF_C27_PROF"); pf != "" {
-		f, _ := os.Create(pf)
-		pprof.StartCPUProfile(f)
-		defer pprof.StopCPUProfile()
-		t0 := time.Now()
-		for i := 0; i < 50; i++ {
-			runHistory(history{Perts: []pert{{1, "put(f1)", 1, "fault", oShort}}}, true)
-		}
-		fmt.Println("per history:", time.Since(t0)/50)
-		pprof.StopCPUProfile()
-		cleanup()
-		return
-	}
 	if run.Replay != "" {
 		replay(run.Replay)
 		cleanup()
@@ -1112,7 +1128,7 @@ func main() {
 		for _, p := range small.Perts {
 			found := false
 			for _, q := range big.Perts {
-				found = found || p == q
+				found = found || (p.At == q.At && p.Kind == q.Kind && p.What == q.What) || (p.Kind == "event" && q.Kind == "event" && p.What == q.What)
 			}
 			if !found {
 				return false
@@ -1125,12 +1141,12 @@ func main() {
 		matched := false
 		for _, c := range classes {
 			if c.kind == f.v.Kind && subset(c.h, f.h) {
-				run.Violate(c.kind+"|"+c.h.String(), "", nil)
+				run.Violate(c.kind+"|"+classSig(c.h), "", nil)
 				matched = true
 				break
 			}
 		}
-		if matched || minimised >= 200 {
+		if matched || minimised >= 300 {
 			if !matched {
 				run.Violate(f.v.Kind+"|unminimised", f.v.Detail, f.h)
 			}
@@ -1156,34 +1172,70 @@ func main() {
 			cleanup()
 			ev.Nondeterminism("violation " + f.v.Kind + " of " + f.h.String() + " did not replay identically")
 		}
-		idx := make([]int, len(f.h.Perts))
-		for i := range idx {
-			idx[i] = i
-		}
-		pick := func(ix []int, ma int) history {
-			h := history{MaxAttempts: ma}
-			for _, i := range ix {
-				h.Perts = append(h.Perts, f.h.Perts[i])
+		// Minimise inside the history space: drop perturbations, drop runs (a perturbation addressed in run r is
+		// re-addressed to an earlier run when the runs before it have nothing left to do), prefer the default
+		// retry cap. 1-minimal: no single perturbation can be dropped any more.
+		shifted := func(h history, from, d int) (history, bool) {
+			out := history{MaxAttempts: h.MaxAttempts, Perts: append([]pert{}, h.Perts...)}
+			for i := from; i < len(out.Perts); i++ {
+				out.Perts[i].Run -= d
+				if out.Perts[i].Run < 1 || (i > 0 && out.Perts[i].Run < out.Perts[i-1].Run) {
+					return out, false
+				}
 			}
-			return h
+			return out, true
 		}
-		ma := f.h.MaxAttempts
-		if ma != 0 {
-			if ok, _ := failsWith(pick(idx, 0)); ok {
-				ma = 0
+		failsSomehow := func(h history) (history, bool) {
+			if ok, _ := failsWith(h); ok {
+				return h, true
+			}
+			for from := 0; from < len(h.Perts); from++ {
+				for d := 1; d <= 2; d++ {
+					if v, legal := shifted(h, from, d); legal {
+						if ok, _ := failsWith(v); ok {
+							return v, true
+						}
+					}
+				}
+			}
+			return h, false
+		}
+		cur := f.h
+		if cur.MaxAttempts != 0 {
+			if ok, _ := failsWith(history{Perts: cur.Perts}); ok {
+				cur.MaxAttempts = 0
 			}
 		}
-		min := ev.Minimize(idx, func(ix []int) bool { ok, _ := failsWith(pick(ix, ma)); return ok })
-		mh := pick(min, ma)
-		_, mr := failsWith(mh)
+		for changed := true; changed; {
+			changed = false
+			for i := range cur.Perts {
+				cand := history{MaxAttempts: cur.MaxAttempts}
+				cand.Perts = append(append([]pert{}, cur.Perts[:i]...), cur.Perts[i+1:]...)
+				if v, ok := failsSomehow(cand); ok {
+					cur, changed = v, true
+					break
+				}
+			}
+		}
+		for changed := true; changed; { // earliest runs
+			changed = false
+			for from := 0; from < len(cur.Perts) && !changed; from++ {
+				if v, legal := shifted(cur, from, 1); legal {
+					if ok, _ := failsWith(v); ok {
+						cur, changed = v, true
+					}
+				}
+			}
+		}
+		_, mr := failsWith(cur)
 		detail := f.v.Detail
 		for _, v := range mr.viols {
 			if v.Kind == f.v.Kind {
 				detail = v.Detail
 			}
 		}
-		classes = append(classes, class{f.v.Kind, mh})
-		run.Violate(f.v.Kind+"|"+mh.String(), detail, map[string]any{"history": mh, "trace": mr.trace,
+		classes = append(classes, class{f.v.Kind, cur})
+		run.Violate(f.v.Kind+"|"+classSig(cur), detail+"  [minimal history: "+cur.String()+"]", map[string]any{"history": cur, "trace": mr.trace,
 			"how": "cd /verif && ./check C27 --replay <this file>"})
 	}
 
